@@ -485,4 +485,582 @@ theorem straightArm_eq (helpers : Nat → Bool) (p : Bytes) (pc : Nat) (i : Insn
   · exact sa_219 h
   · exact sa_220 h
 
+/-! ## the arms with control flow of their own
+
+    Again one lemma per opcode.  For the 44 conditional jumps the model's arm is the default arm of `armB` (`isCondJump` evaluated by `decide`),
+    the source's shared arm is brought to the opcode by `whnf` and `simp` evaluates `opc &&& 0xf0` etc.; the comparison code the source looks
+    up first (`intcc ← match …`) is a `pure` at every one of these opcodes. -/
+
+section
+variable {helpers : Nat → Bool} {p : Bytes} {pc : Nat} {opc dstb srcb : BitVec 8} {off : BitVec 16} {imm : BitVec 32}
+
+/-- the constant of `lddw` -/
+theorem lddw_bv (lo hi : BitVec 32) : BitVec.setWidth 64 lo + (BitVec.signExtend 64 hi <<< 32) = hi ++ lo := by
+  apply BitVec.eq_of_toNat_eq
+  rw [BitVec.toNat_append, ← Nat.shiftLeft_add_eq_or_of_lt lo.isLt]
+  rw [BitVec.toNat_add, BitVec.toNat_shiftLeft, BitVec.toNat_signExtend, Nat.shiftLeft_eq, Nat.shiftLeft_eq]
+  have := lo.isLt; have := hi.isLt
+  cases hi.msb <;> simp <;> omega
+
+theorem ca_24 (h : opc.toNat = 24) :
+    ctlArmSrc helpers p pc ⟨opc, dstb, srcb, off, imm⟩ = some (armB helpers p pc ⟨opc, dstb, srcb, off, imm⟩) := by
+  obtain rfl : opc = 24 := BitVec.eq_of_toNat_eq h
+  have e : armB helpers p pc ⟨24, dstb, srcb, off, imm⟩ =
+      (match getInsn? p (pc + 1) with
+       | none => throw .panic
+       | some nextInsn => do
+         let iconst ← ins (.iconst .i64 (nextInsn.imm ++ imm))
+         setDst ⟨24, dstb, srcb, off, imm⟩ iconst) := by rfl
+  rw [e]
+  conv => lhs; whnf
+  refine congrArg some ?_
+  cases getInsn? p (pc + 1) with
+  | none => rfl
+  | some nx => simp only [pure_bind, lddw_bv, setDst_eq]
+
+theorem ca_5 (h : opc.toNat = 5) :
+    ctlArmSrc helpers p pc ⟨opc, dstb, srcb, off, imm⟩ = some (armB helpers p pc ⟨opc, dstb, srcb, off, imm⟩) := by
+  obtain rfl : opc = 5 := BitVec.eq_of_toNat_eq h; rfl
+theorem ca_21 (h : opc.toNat = 21) :
+    ctlArmSrc helpers p pc ⟨opc, dstb, srcb, off, imm⟩ = some (armB helpers p pc ⟨opc, dstb, srcb, off, imm⟩) := by
+  obtain rfl : opc = 21 := BitVec.eq_of_toNat_eq h
+  have e : armB helpers p pc ⟨21, dstb, srcb, off, imm⟩ =
+      if isCondJump 21 = true then condJump pc ⟨21, dstb, srcb, off, imm⟩ else throw .panic := by rfl
+  rw [e, if_pos (by decide)]
+  conv => lhs; whnf
+  refine congrArg some ?_
+  simp only [BitVec.reduceToNat, condJump, insnImm64_eq, insnDst_eq, Nat.reduceAnd, pure_bind, Nat.reduceBEq, Nat.reduceBNe,
+    Nat.reduceEqDiff, ↓reduceIte, Bool.false_eq_true, show jumpCC 21 = some CC.eq from by decide]
+theorem ca_22 (h : opc.toNat = 22) :
+    ctlArmSrc helpers p pc ⟨opc, dstb, srcb, off, imm⟩ = some (armB helpers p pc ⟨opc, dstb, srcb, off, imm⟩) := by
+  obtain rfl : opc = 22 := BitVec.eq_of_toNat_eq h
+  have e : armB helpers p pc ⟨22, dstb, srcb, off, imm⟩ =
+      if isCondJump 22 = true then condJump pc ⟨22, dstb, srcb, off, imm⟩ else throw .panic := by rfl
+  rw [e, if_pos (by decide)]
+  conv => lhs; whnf
+  refine congrArg some ?_
+  simp only [BitVec.reduceToNat, condJump, insnImm32_eq, insnDst32_eq, Nat.reduceAnd, pure_bind, Nat.reduceBEq, Nat.reduceBNe,
+    Nat.reduceEqDiff, ↓reduceIte, show jumpCC 22 = some CC.eq from by decide]
+theorem ca_29 (h : opc.toNat = 29) :
+    ctlArmSrc helpers p pc ⟨opc, dstb, srcb, off, imm⟩ = some (armB helpers p pc ⟨opc, dstb, srcb, off, imm⟩) := by
+  obtain rfl : opc = 29 := BitVec.eq_of_toNat_eq h
+  have e : armB helpers p pc ⟨29, dstb, srcb, off, imm⟩ =
+      if isCondJump 29 = true then condJump pc ⟨29, dstb, srcb, off, imm⟩ else throw .panic := by rfl
+  rw [e, if_pos (by decide)]
+  conv => lhs; whnf
+  refine congrArg some ?_
+  simp only [BitVec.reduceToNat, condJump, insnDst_eq, insnSrc_eq, Nat.reduceAnd, pure_bind, Nat.reduceBEq, Nat.reduceBNe,
+    Nat.reduceEqDiff, ↓reduceIte, Bool.false_eq_true, show jumpCC 29 = some CC.eq from by decide]
+theorem ca_30 (h : opc.toNat = 30) :
+    ctlArmSrc helpers p pc ⟨opc, dstb, srcb, off, imm⟩ = some (armB helpers p pc ⟨opc, dstb, srcb, off, imm⟩) := by
+  obtain rfl : opc = 30 := BitVec.eq_of_toNat_eq h
+  have e : armB helpers p pc ⟨30, dstb, srcb, off, imm⟩ =
+      if isCondJump 30 = true then condJump pc ⟨30, dstb, srcb, off, imm⟩ else throw .panic := by rfl
+  rw [e, if_pos (by decide)]
+  conv => lhs; whnf
+  refine congrArg some ?_
+  simp only [BitVec.reduceToNat, condJump, insnDst32_eq, insnSrc32_eq, Nat.reduceAnd, pure_bind, Nat.reduceBEq, Nat.reduceBNe,
+    Nat.reduceEqDiff, ↓reduceIte, show jumpCC 30 = some CC.eq from by decide]
+theorem ca_37 (h : opc.toNat = 37) :
+    ctlArmSrc helpers p pc ⟨opc, dstb, srcb, off, imm⟩ = some (armB helpers p pc ⟨opc, dstb, srcb, off, imm⟩) := by
+  obtain rfl : opc = 37 := BitVec.eq_of_toNat_eq h
+  have e : armB helpers p pc ⟨37, dstb, srcb, off, imm⟩ =
+      if isCondJump 37 = true then condJump pc ⟨37, dstb, srcb, off, imm⟩ else throw .panic := by rfl
+  rw [e, if_pos (by decide)]
+  conv => lhs; whnf
+  refine congrArg some ?_
+  simp only [BitVec.reduceToNat, condJump, insnImm64_eq, insnDst_eq, Nat.reduceAnd, pure_bind, Nat.reduceBEq, Nat.reduceBNe,
+    Nat.reduceEqDiff, ↓reduceIte, Bool.false_eq_true, show jumpCC 37 = some CC.ugt from by decide]
+theorem ca_38 (h : opc.toNat = 38) :
+    ctlArmSrc helpers p pc ⟨opc, dstb, srcb, off, imm⟩ = some (armB helpers p pc ⟨opc, dstb, srcb, off, imm⟩) := by
+  obtain rfl : opc = 38 := BitVec.eq_of_toNat_eq h
+  have e : armB helpers p pc ⟨38, dstb, srcb, off, imm⟩ =
+      if isCondJump 38 = true then condJump pc ⟨38, dstb, srcb, off, imm⟩ else throw .panic := by rfl
+  rw [e, if_pos (by decide)]
+  conv => lhs; whnf
+  refine congrArg some ?_
+  simp only [BitVec.reduceToNat, condJump, insnImm32_eq, insnDst32_eq, Nat.reduceAnd, pure_bind, Nat.reduceBEq, Nat.reduceBNe,
+    Nat.reduceEqDiff, ↓reduceIte, show jumpCC 38 = some CC.ugt from by decide]
+theorem ca_45 (h : opc.toNat = 45) :
+    ctlArmSrc helpers p pc ⟨opc, dstb, srcb, off, imm⟩ = some (armB helpers p pc ⟨opc, dstb, srcb, off, imm⟩) := by
+  obtain rfl : opc = 45 := BitVec.eq_of_toNat_eq h
+  have e : armB helpers p pc ⟨45, dstb, srcb, off, imm⟩ =
+      if isCondJump 45 = true then condJump pc ⟨45, dstb, srcb, off, imm⟩ else throw .panic := by rfl
+  rw [e, if_pos (by decide)]
+  conv => lhs; whnf
+  refine congrArg some ?_
+  simp only [BitVec.reduceToNat, condJump, insnDst_eq, insnSrc_eq, Nat.reduceAnd, pure_bind, Nat.reduceBEq, Nat.reduceBNe,
+    Nat.reduceEqDiff, ↓reduceIte, Bool.false_eq_true, show jumpCC 45 = some CC.ugt from by decide]
+theorem ca_46 (h : opc.toNat = 46) :
+    ctlArmSrc helpers p pc ⟨opc, dstb, srcb, off, imm⟩ = some (armB helpers p pc ⟨opc, dstb, srcb, off, imm⟩) := by
+  obtain rfl : opc = 46 := BitVec.eq_of_toNat_eq h
+  have e : armB helpers p pc ⟨46, dstb, srcb, off, imm⟩ =
+      if isCondJump 46 = true then condJump pc ⟨46, dstb, srcb, off, imm⟩ else throw .panic := by rfl
+  rw [e, if_pos (by decide)]
+  conv => lhs; whnf
+  refine congrArg some ?_
+  simp only [BitVec.reduceToNat, condJump, insnDst32_eq, insnSrc32_eq, Nat.reduceAnd, pure_bind, Nat.reduceBEq, Nat.reduceBNe,
+    Nat.reduceEqDiff, ↓reduceIte, show jumpCC 46 = some CC.ugt from by decide]
+theorem ca_53 (h : opc.toNat = 53) :
+    ctlArmSrc helpers p pc ⟨opc, dstb, srcb, off, imm⟩ = some (armB helpers p pc ⟨opc, dstb, srcb, off, imm⟩) := by
+  obtain rfl : opc = 53 := BitVec.eq_of_toNat_eq h
+  have e : armB helpers p pc ⟨53, dstb, srcb, off, imm⟩ =
+      if isCondJump 53 = true then condJump pc ⟨53, dstb, srcb, off, imm⟩ else throw .panic := by rfl
+  rw [e, if_pos (by decide)]
+  conv => lhs; whnf
+  refine congrArg some ?_
+  simp only [BitVec.reduceToNat, condJump, insnImm64_eq, insnDst_eq, Nat.reduceAnd, pure_bind, Nat.reduceBEq, Nat.reduceBNe,
+    Nat.reduceEqDiff, ↓reduceIte, Bool.false_eq_true, show jumpCC 53 = some CC.uge from by decide]
+theorem ca_54 (h : opc.toNat = 54) :
+    ctlArmSrc helpers p pc ⟨opc, dstb, srcb, off, imm⟩ = some (armB helpers p pc ⟨opc, dstb, srcb, off, imm⟩) := by
+  obtain rfl : opc = 54 := BitVec.eq_of_toNat_eq h
+  have e : armB helpers p pc ⟨54, dstb, srcb, off, imm⟩ =
+      if isCondJump 54 = true then condJump pc ⟨54, dstb, srcb, off, imm⟩ else throw .panic := by rfl
+  rw [e, if_pos (by decide)]
+  conv => lhs; whnf
+  refine congrArg some ?_
+  simp only [BitVec.reduceToNat, condJump, insnImm32_eq, insnDst32_eq, Nat.reduceAnd, pure_bind, Nat.reduceBEq, Nat.reduceBNe,
+    Nat.reduceEqDiff, ↓reduceIte, show jumpCC 54 = some CC.uge from by decide]
+theorem ca_61 (h : opc.toNat = 61) :
+    ctlArmSrc helpers p pc ⟨opc, dstb, srcb, off, imm⟩ = some (armB helpers p pc ⟨opc, dstb, srcb, off, imm⟩) := by
+  obtain rfl : opc = 61 := BitVec.eq_of_toNat_eq h
+  have e : armB helpers p pc ⟨61, dstb, srcb, off, imm⟩ =
+      if isCondJump 61 = true then condJump pc ⟨61, dstb, srcb, off, imm⟩ else throw .panic := by rfl
+  rw [e, if_pos (by decide)]
+  conv => lhs; whnf
+  refine congrArg some ?_
+  simp only [BitVec.reduceToNat, condJump, insnDst_eq, insnSrc_eq, Nat.reduceAnd, pure_bind, Nat.reduceBEq, Nat.reduceBNe,
+    Nat.reduceEqDiff, ↓reduceIte, Bool.false_eq_true, show jumpCC 61 = some CC.uge from by decide]
+theorem ca_62 (h : opc.toNat = 62) :
+    ctlArmSrc helpers p pc ⟨opc, dstb, srcb, off, imm⟩ = some (armB helpers p pc ⟨opc, dstb, srcb, off, imm⟩) := by
+  obtain rfl : opc = 62 := BitVec.eq_of_toNat_eq h
+  have e : armB helpers p pc ⟨62, dstb, srcb, off, imm⟩ =
+      if isCondJump 62 = true then condJump pc ⟨62, dstb, srcb, off, imm⟩ else throw .panic := by rfl
+  rw [e, if_pos (by decide)]
+  conv => lhs; whnf
+  refine congrArg some ?_
+  simp only [BitVec.reduceToNat, condJump, insnDst32_eq, insnSrc32_eq, Nat.reduceAnd, pure_bind, Nat.reduceBEq, Nat.reduceBNe,
+    Nat.reduceEqDiff, ↓reduceIte, show jumpCC 62 = some CC.uge from by decide]
+theorem ca_69 (h : opc.toNat = 69) :
+    ctlArmSrc helpers p pc ⟨opc, dstb, srcb, off, imm⟩ = some (armB helpers p pc ⟨opc, dstb, srcb, off, imm⟩) := by
+  obtain rfl : opc = 69 := BitVec.eq_of_toNat_eq h
+  have e : armB helpers p pc ⟨69, dstb, srcb, off, imm⟩ =
+      if isCondJump 69 = true then condJump pc ⟨69, dstb, srcb, off, imm⟩ else throw .panic := by rfl
+  rw [e, if_pos (by decide)]
+  conv => lhs; whnf
+  refine congrArg some ?_
+  simp only [BitVec.reduceToNat, condJump, insnImm64_eq, insnDst_eq, Nat.reduceAnd, pure_bind, Nat.reduceBEq, Nat.reduceBNe,
+    ↓reduceIte, Bool.false_eq_true]
+theorem ca_70 (h : opc.toNat = 70) :
+    ctlArmSrc helpers p pc ⟨opc, dstb, srcb, off, imm⟩ = some (armB helpers p pc ⟨opc, dstb, srcb, off, imm⟩) := by
+  obtain rfl : opc = 70 := BitVec.eq_of_toNat_eq h
+  have e : armB helpers p pc ⟨70, dstb, srcb, off, imm⟩ =
+      if isCondJump 70 = true then condJump pc ⟨70, dstb, srcb, off, imm⟩ else throw .panic := by rfl
+  rw [e, if_pos (by decide)]
+  conv => lhs; whnf
+  refine congrArg some ?_
+  simp only [BitVec.reduceToNat, condJump, insnImm32_eq, insnDst32_eq, Nat.reduceAnd, pure_bind, Nat.reduceBEq, Nat.reduceBNe,
+    ↓reduceIte]
+theorem ca_77 (h : opc.toNat = 77) :
+    ctlArmSrc helpers p pc ⟨opc, dstb, srcb, off, imm⟩ = some (armB helpers p pc ⟨opc, dstb, srcb, off, imm⟩) := by
+  obtain rfl : opc = 77 := BitVec.eq_of_toNat_eq h
+  have e : armB helpers p pc ⟨77, dstb, srcb, off, imm⟩ =
+      if isCondJump 77 = true then condJump pc ⟨77, dstb, srcb, off, imm⟩ else throw .panic := by rfl
+  rw [e, if_pos (by decide)]
+  conv => lhs; whnf
+  refine congrArg some ?_
+  simp only [BitVec.reduceToNat, condJump, insnDst_eq, insnSrc_eq, Nat.reduceAnd, pure_bind, Nat.reduceBEq, Nat.reduceBNe,
+    ↓reduceIte, Bool.false_eq_true]
+theorem ca_78 (h : opc.toNat = 78) :
+    ctlArmSrc helpers p pc ⟨opc, dstb, srcb, off, imm⟩ = some (armB helpers p pc ⟨opc, dstb, srcb, off, imm⟩) := by
+  obtain rfl : opc = 78 := BitVec.eq_of_toNat_eq h
+  have e : armB helpers p pc ⟨78, dstb, srcb, off, imm⟩ =
+      if isCondJump 78 = true then condJump pc ⟨78, dstb, srcb, off, imm⟩ else throw .panic := by rfl
+  rw [e, if_pos (by decide)]
+  conv => lhs; whnf
+  refine congrArg some ?_
+  simp only [BitVec.reduceToNat, condJump, insnDst32_eq, insnSrc32_eq, Nat.reduceAnd, pure_bind, Nat.reduceBEq, Nat.reduceBNe,
+    ↓reduceIte]
+theorem ca_85 (h : opc.toNat = 85) :
+    ctlArmSrc helpers p pc ⟨opc, dstb, srcb, off, imm⟩ = some (armB helpers p pc ⟨opc, dstb, srcb, off, imm⟩) := by
+  obtain rfl : opc = 85 := BitVec.eq_of_toNat_eq h
+  have e : armB helpers p pc ⟨85, dstb, srcb, off, imm⟩ =
+      if isCondJump 85 = true then condJump pc ⟨85, dstb, srcb, off, imm⟩ else throw .panic := by rfl
+  rw [e, if_pos (by decide)]
+  conv => lhs; whnf
+  refine congrArg some ?_
+  simp only [BitVec.reduceToNat, condJump, insnImm64_eq, insnDst_eq, Nat.reduceAnd, pure_bind, Nat.reduceBEq, Nat.reduceBNe,
+    Nat.reduceEqDiff, ↓reduceIte, Bool.false_eq_true, show jumpCC 85 = some CC.ne from by decide]
+theorem ca_86 (h : opc.toNat = 86) :
+    ctlArmSrc helpers p pc ⟨opc, dstb, srcb, off, imm⟩ = some (armB helpers p pc ⟨opc, dstb, srcb, off, imm⟩) := by
+  obtain rfl : opc = 86 := BitVec.eq_of_toNat_eq h
+  have e : armB helpers p pc ⟨86, dstb, srcb, off, imm⟩ =
+      if isCondJump 86 = true then condJump pc ⟨86, dstb, srcb, off, imm⟩ else throw .panic := by rfl
+  rw [e, if_pos (by decide)]
+  conv => lhs; whnf
+  refine congrArg some ?_
+  simp only [BitVec.reduceToNat, condJump, insnImm32_eq, insnDst32_eq, Nat.reduceAnd, pure_bind, Nat.reduceBEq, Nat.reduceBNe,
+    Nat.reduceEqDiff, ↓reduceIte, show jumpCC 86 = some CC.ne from by decide]
+theorem ca_93 (h : opc.toNat = 93) :
+    ctlArmSrc helpers p pc ⟨opc, dstb, srcb, off, imm⟩ = some (armB helpers p pc ⟨opc, dstb, srcb, off, imm⟩) := by
+  obtain rfl : opc = 93 := BitVec.eq_of_toNat_eq h
+  have e : armB helpers p pc ⟨93, dstb, srcb, off, imm⟩ =
+      if isCondJump 93 = true then condJump pc ⟨93, dstb, srcb, off, imm⟩ else throw .panic := by rfl
+  rw [e, if_pos (by decide)]
+  conv => lhs; whnf
+  refine congrArg some ?_
+  simp only [BitVec.reduceToNat, condJump, insnDst_eq, insnSrc_eq, Nat.reduceAnd, pure_bind, Nat.reduceBEq, Nat.reduceBNe,
+    Nat.reduceEqDiff, ↓reduceIte, Bool.false_eq_true, show jumpCC 93 = some CC.ne from by decide]
+theorem ca_94 (h : opc.toNat = 94) :
+    ctlArmSrc helpers p pc ⟨opc, dstb, srcb, off, imm⟩ = some (armB helpers p pc ⟨opc, dstb, srcb, off, imm⟩) := by
+  obtain rfl : opc = 94 := BitVec.eq_of_toNat_eq h
+  have e : armB helpers p pc ⟨94, dstb, srcb, off, imm⟩ =
+      if isCondJump 94 = true then condJump pc ⟨94, dstb, srcb, off, imm⟩ else throw .panic := by rfl
+  rw [e, if_pos (by decide)]
+  conv => lhs; whnf
+  refine congrArg some ?_
+  simp only [BitVec.reduceToNat, condJump, insnDst32_eq, insnSrc32_eq, Nat.reduceAnd, pure_bind, Nat.reduceBEq, Nat.reduceBNe,
+    Nat.reduceEqDiff, ↓reduceIte, show jumpCC 94 = some CC.ne from by decide]
+theorem ca_101 (h : opc.toNat = 101) :
+    ctlArmSrc helpers p pc ⟨opc, dstb, srcb, off, imm⟩ = some (armB helpers p pc ⟨opc, dstb, srcb, off, imm⟩) := by
+  obtain rfl : opc = 101 := BitVec.eq_of_toNat_eq h
+  have e : armB helpers p pc ⟨101, dstb, srcb, off, imm⟩ =
+      if isCondJump 101 = true then condJump pc ⟨101, dstb, srcb, off, imm⟩ else throw .panic := by rfl
+  rw [e, if_pos (by decide)]
+  conv => lhs; whnf
+  refine congrArg some ?_
+  simp only [BitVec.reduceToNat, condJump, insnImm64_eq, insnDst_eq, Nat.reduceAnd, pure_bind, Nat.reduceBEq, Nat.reduceBNe,
+    Nat.reduceEqDiff, ↓reduceIte, Bool.false_eq_true, show jumpCC 101 = some CC.sgt from by decide]
+theorem ca_102 (h : opc.toNat = 102) :
+    ctlArmSrc helpers p pc ⟨opc, dstb, srcb, off, imm⟩ = some (armB helpers p pc ⟨opc, dstb, srcb, off, imm⟩) := by
+  obtain rfl : opc = 102 := BitVec.eq_of_toNat_eq h
+  have e : armB helpers p pc ⟨102, dstb, srcb, off, imm⟩ =
+      if isCondJump 102 = true then condJump pc ⟨102, dstb, srcb, off, imm⟩ else throw .panic := by rfl
+  rw [e, if_pos (by decide)]
+  conv => lhs; whnf
+  refine congrArg some ?_
+  simp only [BitVec.reduceToNat, condJump, insnImm32_eq, insnDst32_eq, Nat.reduceAnd, pure_bind, Nat.reduceBEq, Nat.reduceBNe,
+    Nat.reduceEqDiff, ↓reduceIte, show jumpCC 102 = some CC.sgt from by decide]
+theorem ca_109 (h : opc.toNat = 109) :
+    ctlArmSrc helpers p pc ⟨opc, dstb, srcb, off, imm⟩ = some (armB helpers p pc ⟨opc, dstb, srcb, off, imm⟩) := by
+  obtain rfl : opc = 109 := BitVec.eq_of_toNat_eq h
+  have e : armB helpers p pc ⟨109, dstb, srcb, off, imm⟩ =
+      if isCondJump 109 = true then condJump pc ⟨109, dstb, srcb, off, imm⟩ else throw .panic := by rfl
+  rw [e, if_pos (by decide)]
+  conv => lhs; whnf
+  refine congrArg some ?_
+  simp only [BitVec.reduceToNat, condJump, insnDst_eq, insnSrc_eq, Nat.reduceAnd, pure_bind, Nat.reduceBEq, Nat.reduceBNe,
+    Nat.reduceEqDiff, ↓reduceIte, Bool.false_eq_true, show jumpCC 109 = some CC.sgt from by decide]
+theorem ca_110 (h : opc.toNat = 110) :
+    ctlArmSrc helpers p pc ⟨opc, dstb, srcb, off, imm⟩ = some (armB helpers p pc ⟨opc, dstb, srcb, off, imm⟩) := by
+  obtain rfl : opc = 110 := BitVec.eq_of_toNat_eq h
+  have e : armB helpers p pc ⟨110, dstb, srcb, off, imm⟩ =
+      if isCondJump 110 = true then condJump pc ⟨110, dstb, srcb, off, imm⟩ else throw .panic := by rfl
+  rw [e, if_pos (by decide)]
+  conv => lhs; whnf
+  refine congrArg some ?_
+  simp only [BitVec.reduceToNat, condJump, insnDst32_eq, insnSrc32_eq, Nat.reduceAnd, pure_bind, Nat.reduceBEq, Nat.reduceBNe,
+    Nat.reduceEqDiff, ↓reduceIte, show jumpCC 110 = some CC.sgt from by decide]
+theorem ca_117 (h : opc.toNat = 117) :
+    ctlArmSrc helpers p pc ⟨opc, dstb, srcb, off, imm⟩ = some (armB helpers p pc ⟨opc, dstb, srcb, off, imm⟩) := by
+  obtain rfl : opc = 117 := BitVec.eq_of_toNat_eq h
+  have e : armB helpers p pc ⟨117, dstb, srcb, off, imm⟩ =
+      if isCondJump 117 = true then condJump pc ⟨117, dstb, srcb, off, imm⟩ else throw .panic := by rfl
+  rw [e, if_pos (by decide)]
+  conv => lhs; whnf
+  refine congrArg some ?_
+  simp only [BitVec.reduceToNat, condJump, insnImm64_eq, insnDst_eq, Nat.reduceAnd, pure_bind, Nat.reduceBEq, Nat.reduceBNe,
+    Nat.reduceEqDiff, ↓reduceIte, Bool.false_eq_true, show jumpCC 117 = some CC.sge from by decide]
+theorem ca_118 (h : opc.toNat = 118) :
+    ctlArmSrc helpers p pc ⟨opc, dstb, srcb, off, imm⟩ = some (armB helpers p pc ⟨opc, dstb, srcb, off, imm⟩) := by
+  obtain rfl : opc = 118 := BitVec.eq_of_toNat_eq h
+  have e : armB helpers p pc ⟨118, dstb, srcb, off, imm⟩ =
+      if isCondJump 118 = true then condJump pc ⟨118, dstb, srcb, off, imm⟩ else throw .panic := by rfl
+  rw [e, if_pos (by decide)]
+  conv => lhs; whnf
+  refine congrArg some ?_
+  simp only [BitVec.reduceToNat, condJump, insnImm32_eq, insnDst32_eq, Nat.reduceAnd, pure_bind, Nat.reduceBEq, Nat.reduceBNe,
+    Nat.reduceEqDiff, ↓reduceIte, show jumpCC 118 = some CC.sge from by decide]
+theorem ca_125 (h : opc.toNat = 125) :
+    ctlArmSrc helpers p pc ⟨opc, dstb, srcb, off, imm⟩ = some (armB helpers p pc ⟨opc, dstb, srcb, off, imm⟩) := by
+  obtain rfl : opc = 125 := BitVec.eq_of_toNat_eq h
+  have e : armB helpers p pc ⟨125, dstb, srcb, off, imm⟩ =
+      if isCondJump 125 = true then condJump pc ⟨125, dstb, srcb, off, imm⟩ else throw .panic := by rfl
+  rw [e, if_pos (by decide)]
+  conv => lhs; whnf
+  refine congrArg some ?_
+  simp only [BitVec.reduceToNat, condJump, insnDst_eq, insnSrc_eq, Nat.reduceAnd, pure_bind, Nat.reduceBEq, Nat.reduceBNe,
+    Nat.reduceEqDiff, ↓reduceIte, Bool.false_eq_true, show jumpCC 125 = some CC.sge from by decide]
+theorem ca_126 (h : opc.toNat = 126) :
+    ctlArmSrc helpers p pc ⟨opc, dstb, srcb, off, imm⟩ = some (armB helpers p pc ⟨opc, dstb, srcb, off, imm⟩) := by
+  obtain rfl : opc = 126 := BitVec.eq_of_toNat_eq h
+  have e : armB helpers p pc ⟨126, dstb, srcb, off, imm⟩ =
+      if isCondJump 126 = true then condJump pc ⟨126, dstb, srcb, off, imm⟩ else throw .panic := by rfl
+  rw [e, if_pos (by decide)]
+  conv => lhs; whnf
+  refine congrArg some ?_
+  simp only [BitVec.reduceToNat, condJump, insnDst32_eq, insnSrc32_eq, Nat.reduceAnd, pure_bind, Nat.reduceBEq, Nat.reduceBNe,
+    Nat.reduceEqDiff, ↓reduceIte, show jumpCC 126 = some CC.sge from by decide]
+theorem ca_133 (h : opc.toNat = 133) :
+    ctlArmSrc helpers p pc ⟨opc, dstb, srcb, off, imm⟩ = some (armB helpers p pc ⟨opc, dstb, srcb, off, imm⟩) := by
+  obtain rfl : opc = 133 := BitVec.eq_of_toNat_eq h; rfl
+theorem ca_141 (h : opc.toNat = 141) :
+    ctlArmSrc helpers p pc ⟨opc, dstb, srcb, off, imm⟩ = some (armB helpers p pc ⟨opc, dstb, srcb, off, imm⟩) := by
+  obtain rfl : opc = 141 := BitVec.eq_of_toNat_eq h; rfl
+theorem ca_149 (h : opc.toNat = 149) :
+    ctlArmSrc helpers p pc ⟨opc, dstb, srcb, off, imm⟩ = some (armB helpers p pc ⟨opc, dstb, srcb, off, imm⟩) := by
+  obtain rfl : opc = 149 := BitVec.eq_of_toNat_eq h; rfl
+theorem ca_165 (h : opc.toNat = 165) :
+    ctlArmSrc helpers p pc ⟨opc, dstb, srcb, off, imm⟩ = some (armB helpers p pc ⟨opc, dstb, srcb, off, imm⟩) := by
+  obtain rfl : opc = 165 := BitVec.eq_of_toNat_eq h
+  have e : armB helpers p pc ⟨165, dstb, srcb, off, imm⟩ =
+      if isCondJump 165 = true then condJump pc ⟨165, dstb, srcb, off, imm⟩ else throw .panic := by rfl
+  rw [e, if_pos (by decide)]
+  conv => lhs; whnf
+  refine congrArg some ?_
+  simp only [BitVec.reduceToNat, condJump, insnImm64_eq, insnDst_eq, Nat.reduceAnd, pure_bind, Nat.reduceBEq, Nat.reduceBNe,
+    Nat.reduceEqDiff, ↓reduceIte, Bool.false_eq_true, show jumpCC 165 = some CC.ult from by decide]
+theorem ca_166 (h : opc.toNat = 166) :
+    ctlArmSrc helpers p pc ⟨opc, dstb, srcb, off, imm⟩ = some (armB helpers p pc ⟨opc, dstb, srcb, off, imm⟩) := by
+  obtain rfl : opc = 166 := BitVec.eq_of_toNat_eq h
+  have e : armB helpers p pc ⟨166, dstb, srcb, off, imm⟩ =
+      if isCondJump 166 = true then condJump pc ⟨166, dstb, srcb, off, imm⟩ else throw .panic := by rfl
+  rw [e, if_pos (by decide)]
+  conv => lhs; whnf
+  refine congrArg some ?_
+  simp only [BitVec.reduceToNat, condJump, insnImm32_eq, insnDst32_eq, Nat.reduceAnd, pure_bind, Nat.reduceBEq, Nat.reduceBNe,
+    Nat.reduceEqDiff, ↓reduceIte, show jumpCC 166 = some CC.ult from by decide]
+theorem ca_173 (h : opc.toNat = 173) :
+    ctlArmSrc helpers p pc ⟨opc, dstb, srcb, off, imm⟩ = some (armB helpers p pc ⟨opc, dstb, srcb, off, imm⟩) := by
+  obtain rfl : opc = 173 := BitVec.eq_of_toNat_eq h
+  have e : armB helpers p pc ⟨173, dstb, srcb, off, imm⟩ =
+      if isCondJump 173 = true then condJump pc ⟨173, dstb, srcb, off, imm⟩ else throw .panic := by rfl
+  rw [e, if_pos (by decide)]
+  conv => lhs; whnf
+  refine congrArg some ?_
+  simp only [BitVec.reduceToNat, condJump, insnDst_eq, insnSrc_eq, Nat.reduceAnd, pure_bind, Nat.reduceBEq, Nat.reduceBNe,
+    Nat.reduceEqDiff, ↓reduceIte, Bool.false_eq_true, show jumpCC 173 = some CC.ult from by decide]
+theorem ca_174 (h : opc.toNat = 174) :
+    ctlArmSrc helpers p pc ⟨opc, dstb, srcb, off, imm⟩ = some (armB helpers p pc ⟨opc, dstb, srcb, off, imm⟩) := by
+  obtain rfl : opc = 174 := BitVec.eq_of_toNat_eq h
+  have e : armB helpers p pc ⟨174, dstb, srcb, off, imm⟩ =
+      if isCondJump 174 = true then condJump pc ⟨174, dstb, srcb, off, imm⟩ else throw .panic := by rfl
+  rw [e, if_pos (by decide)]
+  conv => lhs; whnf
+  refine congrArg some ?_
+  simp only [BitVec.reduceToNat, condJump, insnDst32_eq, insnSrc32_eq, Nat.reduceAnd, pure_bind, Nat.reduceBEq, Nat.reduceBNe,
+    Nat.reduceEqDiff, ↓reduceIte, show jumpCC 174 = some CC.ult from by decide]
+theorem ca_181 (h : opc.toNat = 181) :
+    ctlArmSrc helpers p pc ⟨opc, dstb, srcb, off, imm⟩ = some (armB helpers p pc ⟨opc, dstb, srcb, off, imm⟩) := by
+  obtain rfl : opc = 181 := BitVec.eq_of_toNat_eq h
+  have e : armB helpers p pc ⟨181, dstb, srcb, off, imm⟩ =
+      if isCondJump 181 = true then condJump pc ⟨181, dstb, srcb, off, imm⟩ else throw .panic := by rfl
+  rw [e, if_pos (by decide)]
+  conv => lhs; whnf
+  refine congrArg some ?_
+  simp only [BitVec.reduceToNat, condJump, insnImm64_eq, insnDst_eq, Nat.reduceAnd, pure_bind, Nat.reduceBEq, Nat.reduceBNe,
+    Nat.reduceEqDiff, ↓reduceIte, Bool.false_eq_true, show jumpCC 181 = some CC.ule from by decide]
+theorem ca_182 (h : opc.toNat = 182) :
+    ctlArmSrc helpers p pc ⟨opc, dstb, srcb, off, imm⟩ = some (armB helpers p pc ⟨opc, dstb, srcb, off, imm⟩) := by
+  obtain rfl : opc = 182 := BitVec.eq_of_toNat_eq h
+  have e : armB helpers p pc ⟨182, dstb, srcb, off, imm⟩ =
+      if isCondJump 182 = true then condJump pc ⟨182, dstb, srcb, off, imm⟩ else throw .panic := by rfl
+  rw [e, if_pos (by decide)]
+  conv => lhs; whnf
+  refine congrArg some ?_
+  simp only [BitVec.reduceToNat, condJump, insnImm32_eq, insnDst32_eq, Nat.reduceAnd, pure_bind, Nat.reduceBEq, Nat.reduceBNe,
+    Nat.reduceEqDiff, ↓reduceIte, show jumpCC 182 = some CC.ule from by decide]
+theorem ca_189 (h : opc.toNat = 189) :
+    ctlArmSrc helpers p pc ⟨opc, dstb, srcb, off, imm⟩ = some (armB helpers p pc ⟨opc, dstb, srcb, off, imm⟩) := by
+  obtain rfl : opc = 189 := BitVec.eq_of_toNat_eq h
+  have e : armB helpers p pc ⟨189, dstb, srcb, off, imm⟩ =
+      if isCondJump 189 = true then condJump pc ⟨189, dstb, srcb, off, imm⟩ else throw .panic := by rfl
+  rw [e, if_pos (by decide)]
+  conv => lhs; whnf
+  refine congrArg some ?_
+  simp only [BitVec.reduceToNat, condJump, insnDst_eq, insnSrc_eq, Nat.reduceAnd, pure_bind, Nat.reduceBEq, Nat.reduceBNe,
+    Nat.reduceEqDiff, ↓reduceIte, Bool.false_eq_true, show jumpCC 189 = some CC.ule from by decide]
+theorem ca_190 (h : opc.toNat = 190) :
+    ctlArmSrc helpers p pc ⟨opc, dstb, srcb, off, imm⟩ = some (armB helpers p pc ⟨opc, dstb, srcb, off, imm⟩) := by
+  obtain rfl : opc = 190 := BitVec.eq_of_toNat_eq h
+  have e : armB helpers p pc ⟨190, dstb, srcb, off, imm⟩ =
+      if isCondJump 190 = true then condJump pc ⟨190, dstb, srcb, off, imm⟩ else throw .panic := by rfl
+  rw [e, if_pos (by decide)]
+  conv => lhs; whnf
+  refine congrArg some ?_
+  simp only [BitVec.reduceToNat, condJump, insnDst32_eq, insnSrc32_eq, Nat.reduceAnd, pure_bind, Nat.reduceBEq, Nat.reduceBNe,
+    Nat.reduceEqDiff, ↓reduceIte, show jumpCC 190 = some CC.ule from by decide]
+theorem ca_197 (h : opc.toNat = 197) :
+    ctlArmSrc helpers p pc ⟨opc, dstb, srcb, off, imm⟩ = some (armB helpers p pc ⟨opc, dstb, srcb, off, imm⟩) := by
+  obtain rfl : opc = 197 := BitVec.eq_of_toNat_eq h
+  have e : armB helpers p pc ⟨197, dstb, srcb, off, imm⟩ =
+      if isCondJump 197 = true then condJump pc ⟨197, dstb, srcb, off, imm⟩ else throw .panic := by rfl
+  rw [e, if_pos (by decide)]
+  conv => lhs; whnf
+  refine congrArg some ?_
+  simp only [BitVec.reduceToNat, condJump, insnImm64_eq, insnDst_eq, Nat.reduceAnd, pure_bind, Nat.reduceBEq, Nat.reduceBNe,
+    Nat.reduceEqDiff, ↓reduceIte, Bool.false_eq_true, show jumpCC 197 = some CC.slt from by decide]
+theorem ca_198 (h : opc.toNat = 198) :
+    ctlArmSrc helpers p pc ⟨opc, dstb, srcb, off, imm⟩ = some (armB helpers p pc ⟨opc, dstb, srcb, off, imm⟩) := by
+  obtain rfl : opc = 198 := BitVec.eq_of_toNat_eq h
+  have e : armB helpers p pc ⟨198, dstb, srcb, off, imm⟩ =
+      if isCondJump 198 = true then condJump pc ⟨198, dstb, srcb, off, imm⟩ else throw .panic := by rfl
+  rw [e, if_pos (by decide)]
+  conv => lhs; whnf
+  refine congrArg some ?_
+  simp only [BitVec.reduceToNat, condJump, insnImm32_eq, insnDst32_eq, Nat.reduceAnd, pure_bind, Nat.reduceBEq, Nat.reduceBNe,
+    Nat.reduceEqDiff, ↓reduceIte, show jumpCC 198 = some CC.slt from by decide]
+theorem ca_205 (h : opc.toNat = 205) :
+    ctlArmSrc helpers p pc ⟨opc, dstb, srcb, off, imm⟩ = some (armB helpers p pc ⟨opc, dstb, srcb, off, imm⟩) := by
+  obtain rfl : opc = 205 := BitVec.eq_of_toNat_eq h
+  have e : armB helpers p pc ⟨205, dstb, srcb, off, imm⟩ =
+      if isCondJump 205 = true then condJump pc ⟨205, dstb, srcb, off, imm⟩ else throw .panic := by rfl
+  rw [e, if_pos (by decide)]
+  conv => lhs; whnf
+  refine congrArg some ?_
+  simp only [BitVec.reduceToNat, condJump, insnDst_eq, insnSrc_eq, Nat.reduceAnd, pure_bind, Nat.reduceBEq, Nat.reduceBNe,
+    Nat.reduceEqDiff, ↓reduceIte, Bool.false_eq_true, show jumpCC 205 = some CC.slt from by decide]
+theorem ca_206 (h : opc.toNat = 206) :
+    ctlArmSrc helpers p pc ⟨opc, dstb, srcb, off, imm⟩ = some (armB helpers p pc ⟨opc, dstb, srcb, off, imm⟩) := by
+  obtain rfl : opc = 206 := BitVec.eq_of_toNat_eq h
+  have e : armB helpers p pc ⟨206, dstb, srcb, off, imm⟩ =
+      if isCondJump 206 = true then condJump pc ⟨206, dstb, srcb, off, imm⟩ else throw .panic := by rfl
+  rw [e, if_pos (by decide)]
+  conv => lhs; whnf
+  refine congrArg some ?_
+  simp only [BitVec.reduceToNat, condJump, insnDst32_eq, insnSrc32_eq, Nat.reduceAnd, pure_bind, Nat.reduceBEq, Nat.reduceBNe,
+    Nat.reduceEqDiff, ↓reduceIte, show jumpCC 206 = some CC.slt from by decide]
+theorem ca_213 (h : opc.toNat = 213) :
+    ctlArmSrc helpers p pc ⟨opc, dstb, srcb, off, imm⟩ = some (armB helpers p pc ⟨opc, dstb, srcb, off, imm⟩) := by
+  obtain rfl : opc = 213 := BitVec.eq_of_toNat_eq h
+  have e : armB helpers p pc ⟨213, dstb, srcb, off, imm⟩ =
+      if isCondJump 213 = true then condJump pc ⟨213, dstb, srcb, off, imm⟩ else throw .panic := by rfl
+  rw [e, if_pos (by decide)]
+  conv => lhs; whnf
+  refine congrArg some ?_
+  simp only [BitVec.reduceToNat, condJump, insnImm64_eq, insnDst_eq, Nat.reduceAnd, pure_bind, Nat.reduceBEq, Nat.reduceBNe,
+    Nat.reduceEqDiff, ↓reduceIte, Bool.false_eq_true, show jumpCC 213 = some CC.sle from by decide]
+theorem ca_214 (h : opc.toNat = 214) :
+    ctlArmSrc helpers p pc ⟨opc, dstb, srcb, off, imm⟩ = some (armB helpers p pc ⟨opc, dstb, srcb, off, imm⟩) := by
+  obtain rfl : opc = 214 := BitVec.eq_of_toNat_eq h
+  have e : armB helpers p pc ⟨214, dstb, srcb, off, imm⟩ =
+      if isCondJump 214 = true then condJump pc ⟨214, dstb, srcb, off, imm⟩ else throw .panic := by rfl
+  rw [e, if_pos (by decide)]
+  conv => lhs; whnf
+  refine congrArg some ?_
+  simp only [BitVec.reduceToNat, condJump, insnImm32_eq, insnDst32_eq, Nat.reduceAnd, pure_bind, Nat.reduceBEq, Nat.reduceBNe,
+    Nat.reduceEqDiff, ↓reduceIte, show jumpCC 214 = some CC.sle from by decide]
+theorem ca_221 (h : opc.toNat = 221) :
+    ctlArmSrc helpers p pc ⟨opc, dstb, srcb, off, imm⟩ = some (armB helpers p pc ⟨opc, dstb, srcb, off, imm⟩) := by
+  obtain rfl : opc = 221 := BitVec.eq_of_toNat_eq h
+  have e : armB helpers p pc ⟨221, dstb, srcb, off, imm⟩ =
+      if isCondJump 221 = true then condJump pc ⟨221, dstb, srcb, off, imm⟩ else throw .panic := by rfl
+  rw [e, if_pos (by decide)]
+  conv => lhs; whnf
+  refine congrArg some ?_
+  simp only [BitVec.reduceToNat, condJump, insnDst_eq, insnSrc_eq, Nat.reduceAnd, pure_bind, Nat.reduceBEq, Nat.reduceBNe,
+    Nat.reduceEqDiff, ↓reduceIte, Bool.false_eq_true, show jumpCC 221 = some CC.sle from by decide]
+theorem ca_222 (h : opc.toNat = 222) :
+    ctlArmSrc helpers p pc ⟨opc, dstb, srcb, off, imm⟩ = some (armB helpers p pc ⟨opc, dstb, srcb, off, imm⟩) := by
+  obtain rfl : opc = 222 := BitVec.eq_of_toNat_eq h
+  have e : armB helpers p pc ⟨222, dstb, srcb, off, imm⟩ =
+      if isCondJump 222 = true then condJump pc ⟨222, dstb, srcb, off, imm⟩ else throw .panic := by rfl
+  rw [e, if_pos (by decide)]
+  conv => lhs; whnf
+  refine congrArg some ?_
+  simp only [BitVec.reduceToNat, condJump, insnDst32_eq, insnSrc32_eq, Nat.reduceAnd, pure_bind, Nat.reduceBEq, Nat.reduceBNe,
+    Nat.reduceEqDiff, ↓reduceIte, show jumpCC 222 = some CC.sle from by decide]
+end
+
+/-- the arms with control flow of their own -/
+theorem ctlArm_eq (helpers : Nat → Bool) (p : Bytes) (pc : Nat) (i : Insn) (h : i.opc.toNat ∈ ctlOpcodes) :
+    ctlArmSrc helpers p pc i = some (armB helpers p pc i) := by
+  obtain ⟨opc, dstb, srcb, off, imm⟩ := i
+  simp only [ctlOpcodes, List.mem_cons, List.not_mem_nil, or_false] at h
+  rcases h with h | h | h | h | h | h | h | h | h | h | h | h | h | h | h | h | h | h | h | h | h | h | h | h | h | h | h | h | h | h |
+    h | h | h | h | h | h | h | h | h | h | h | h | h | h | h | h | h | h | h
+  · exact ca_5 h
+  · exact ca_21 h
+  · exact ca_22 h
+  · exact ca_24 h
+  · exact ca_29 h
+  · exact ca_30 h
+  · exact ca_37 h
+  · exact ca_38 h
+  · exact ca_45 h
+  · exact ca_46 h
+  · exact ca_53 h
+  · exact ca_54 h
+  · exact ca_61 h
+  · exact ca_62 h
+  · exact ca_69 h
+  · exact ca_70 h
+  · exact ca_77 h
+  · exact ca_78 h
+  · exact ca_85 h
+  · exact ca_86 h
+  · exact ca_93 h
+  · exact ca_94 h
+  · exact ca_101 h
+  · exact ca_102 h
+  · exact ca_109 h
+  · exact ca_110 h
+  · exact ca_117 h
+  · exact ca_118 h
+  · exact ca_125 h
+  · exact ca_126 h
+  · exact ca_133 h
+  · exact ca_141 h
+  · exact ca_149 h
+  · exact ca_165 h
+  · exact ca_166 h
+  · exact ca_173 h
+  · exact ca_174 h
+  · exact ca_181 h
+  · exact ca_182 h
+  · exact ca_189 h
+  · exact ca_190 h
+  · exact ca_197 h
+  · exact ca_198 h
+  · exact ca_205 h
+  · exact ca_206 h
+  · exact ca_213 h
+  · exact ca_214 h
+  · exact ca_221 h
+  · exact ca_222 h
+
+/-! ## opcodes without an arm
+
+    Here the `match`es are split once (`split`): in every case but the last the opcode is one of the list, against the hypothesis. -/
+
+set_option maxRecDepth 10000 in
+/-- an opcode outside the list has no arm in `straightArmSrc` -/
+theorem straightNone (i : Insn) (h : i.opc.toNat ∉ straightOpcodes) : straightArmSrc i = none := by
+  unfold straightArmSrc
+  split <;> first | rfl | (rename_i heq; exact absurd (by rw [heq]; decide) h)
+
+set_option maxRecDepth 10000 in
+/-- an opcode outside the list has no arm in `ctlArmSrc` -/
+theorem ctlNone (helpers : Nat → Bool) (p : Bytes) (pc : Nat) (i : Insn) (h : i.opc.toNat ∉ ctlOpcodes) : ctlArmSrc helpers p pc i = none := by
+  unfold ctlArmSrc
+  split <;> first | rfl | (rename_i heq; exact absurd (by rw [heq]; decide) h)
+
+/-- the opcodes the model treats as conditional jumps are in the list of translated arms -/
+theorem condJump_ctl : ∀ n, n < 256 → isCondJump n = true → ctlOpcodes.contains n = true := by decide +kernel
+
+set_option maxRecDepth 10000 in
+/-- every other opcode byte: no arm in the source (`unimplemented!`), `throw .panic` in the model -/
+theorem armB_default (helpers : Nat → Bool) (p : Bytes) (pc : Nat) (i : Insn) (h1 : i.opc.toNat ∉ straightOpcodes) (h2 : i.opc.toNat ∉ ctlOpcodes) :
+    armB helpers p pc i = throw .panic := by
+  unfold armB
+  split <;> first
+    | (rename_i heq; exact absurd (by rw [heq]; decide) h1)
+    | (rename_i heq; exact absurd (by rw [heq]; decide) h2)
+    | skip
+  have hc : isCondJump i.opc.toNat = false := by
+    cases hcj : isCondJump i.opc.toNat with
+    | false => rfl
+    | true => exact absurd (List.contains_iff_mem.mp (condJump_ctl _ i.opc.isLt hcj)) h2
+  rw [if_neg (by rw [hc]; decide)]
+
 end Rbpf.Generated.Clif
